@@ -29,7 +29,7 @@ SHRINK_SKIP = ("klass", "allow")
 SHRINK_BUDGET_S = {"quick": 40.0, "thorough": 120.0}
 CAP = 20_000
 
-TRIGGERS = ("overlap", "inflight", "server", "precancel", "capbusy")
+TRIGGERS = ("overlap", "inflight", "server", "precancel", "capbusy", "capwait")
 
 RULE = (
     "each case is a generated probe model (1-4 node targets among plain handler / generator handler with in-flight "
@@ -39,7 +39,7 @@ RULE = (
     "faults (windows disjoint, overlapping, nested, identical, adjacent, past the horizon, permanent crash; handles "
     "cancelled before construction / after construction / during the run / never) passed to Simulation(fault_schedule=); "
     "scenario classes: fault-free, clean (no known trigger possible), only:<trigger> (exactly one of overlap, inflight, "
-    "server, precancel, capbusy allowed), mixed; non-trivial = at least one repo fault event fired and at least one "
+    "server, precancel, capbusy, capwait allowed), mixed; non-trivial = at least one repo fault event fired and at least one "
     "observation (job, grant or probe) was judged strictly inside an active window; distinct = distinct delivery digests"
 )
 STATE_MEASURE = "distinct (key kind : multiset of fault kinds simultaneously active on one key) combinations observed at a delivery, per scenario class"
@@ -161,7 +161,7 @@ def gen(rng, tier):
     end_ms = rng.choice((3000, 5000, 8000, 12000, 20000, 40000, 60000))
     sc["end_ms"] = end_ms
     end_us = end_ms * 1000
-    sc["tick_us"] = max(50_000, end_us // 40)
+    sc["tick_us"] = max(50_000, end_us // 25)
     sc["edge_jobs"] = rng.random() < 0.15
 
     # ---- nodes
@@ -173,12 +173,12 @@ def gen(rng, tier):
         kinds.append(rng.choice(("gen", "holder")))
     if "server" in allow and "server" not in kinds:
         kinds.append("server")
-    if "capbusy" in allow and "holder" not in kinds:
+    if ("capbusy" in allow or "capwait" in allow) and "holder" not in kinds:
         kinds.append("holder")
     rng.shuffle(kinds)
     nodes = []
     for k in kinds:
-        period = max(rng.choice((40_000, 90_000, 150_000, 300_000, 700_000)), end_us // 60)
+        period = max(rng.choice((40_000, 90_000, 150_000, 300_000, 700_000)), end_us // 45)
         n = {"kind": k, "period_us": period, "phase_us": rng.randrange(1, period)}
         if k == "plain":
             n["emit_delay_us"] = rng.choice((0, 0, 1000, 30_000))
@@ -190,7 +190,7 @@ def gen(rng, tier):
             n["concurrency"] = rng.choice((1, 1, 2))
         else:
             n["cap"] = rng.choice((4, 8, 10, 12))
-            n["co_period_us"] = max(rng.choice((60_000, 130_000, 400_000)), end_us // 60)
+            n["co_period_us"] = max(rng.choice((60_000, 130_000, 400_000)), end_us // 45)
             n["co_phase_us"] = rng.randrange(1, n["co_period_us"])
         nodes.append(n)
     sc["nodes"] = nodes
@@ -205,7 +205,7 @@ def gen(rng, tier):
                 if a != b and (rng.random() < 0.9 or not links):
                     links.append({"a": a, "b": b, "base_us": rng.choice((500, 2000, 10_000, 40_000, 80_000)),
                                   "loss": 0.25 if rng.random() < 0.08 else 0.0})
-        net = {"n": nn, "delta_us": max(50_000, end_us // rng.choice((20, 30, 40))),
+        net = {"n": nn, "delta_us": max(50_000, end_us // rng.choice((15, 20, 30))),
                "phase_us": rng.randrange(1, 50_000), "links": links}
     sc["net"] = net
 
@@ -230,7 +230,7 @@ def gen(rng, tier):
         k = rng.choice(kinds_avail)
         if only == "overlap" and faults and rng.random() < 0.7:
             k = rng.choice(faults)["kind"]
-        elif only == "capbusy" and rng.random() < 0.6:
+        elif only in ("capbusy", "capwait") and rng.random() < 0.6:
             k = "capacity"
         f = {"kind": k}
         if k in ("crash", "pause"):
@@ -295,14 +295,21 @@ def gen(rng, tier):
             n["co_hold_us"] = int(n["co_period_us"] * rng.choice((0.4, 0.9, 1.6)))
         else:
             # avoidance: nothing is ever held at a window start and nobody ever waits
-            if lim < 2:
+            if lim < 2 and "capwait" not in allow:
                 for f in cf:
                     faults.remove(f)
                 cf, lim = [], n["cap"]
-            n["amount"] = rng.randint(1, lim // 2)
-            n["co_amount"] = rng.randint(1, lim - lim // 2)
-            n["hold_us"] = int(n["period_us"] * rng.choice((0.2, 0.5, 0.8)))
-            n["co_hold_us"] = int(n["co_period_us"] * rng.choice((0.2, 0.5, 0.8)))
+            if "capwait" in allow and cf and n["cap"] - lim >= 1:
+                # nothing held at a window start, but inside the window the two holders do not fit together
+                n["amount"] = lim
+                n["co_amount"] = rng.randint(1, min(lim, n["cap"] - lim))
+                fr = (0.5, 0.8)
+            else:
+                n["amount"] = rng.randint(1, lim // 2)
+                n["co_amount"] = rng.randint(1, lim - lim // 2)
+                fr = (0.2, 0.5, 0.8)
+            n["hold_us"] = int(n["period_us"] * rng.choice(fr))
+            n["co_hold_us"] = int(n["co_period_us"] * rng.choice(fr))
             guard_ms = max(n["hold_us"], n["co_hold_us"]) // 1000 + 2
             n["skip"] = [[max(0, f["start_ms"] - guard_ms), f["start_ms"] + 1] for f in cf]
     return sc
